@@ -368,6 +368,9 @@ def c13(run):
     # hand-written inputs: a request that is made and dropped before it is ever polled (select with an earlier
     # leaf ready) must let go of its operation -- through the command API, the capability API and both mixed
     regress_round(run, "core")
+    # width instead of length: one command with 260 tasks, 258 of whose requests the shell drops before its next
+    # call -- every one of them has to be gone after that call (limits of a few hundred: a poll budget per pass)
+    regress_round(run, "wide")
     # many different programs with aborts and drops, medium length (occupancy after every call)
     random_round(run, "broad", run.seed + 9, 900 if q else 9000, ["direct", "core", "bridge_bin"], "mixed", 3, 30)
     # requests spent by an undecodable response must be forgotten as well
@@ -386,7 +389,7 @@ def c12(run):
     run.level = "fault_enumeration"
     run.assumptions = BASE_ASSUME + [
         "responses are offered only for ids that are outstanding (an unknown id panics by a documented FIXME and is outside the property)",
-        "byte strings that the deserializer accepts are valid inputs, not malformed ones, and are not sent",
+        "byte strings that the deserializer accepts (trailing bytes after a complete value, a changed payload) are valid inputs: they are sent as such and have to be taken for the value they decode to (response values restricted to 1..10^6, the model's integers)",
         "per-call bounds: 1 s wall clock and 2 MiB + 64 bytes per input byte of peak allocation (serde pre-allocates at most 1 MiB for a sequence whose declared length is huge)"]
     q = run.quick
     try:
